@@ -181,6 +181,9 @@ class EventletWorker(AsyncWorker):
 
         self.notify()
         t = None
+        # draining may take up to graceful_timeout, which can be longer than
+        # timeout: keep notifying the arbiter meanwhile
+        heartbeat = eventlet.spawn(self._notify_forever)
         try:
             with eventlet.Timeout(self.cfg.graceful_timeout) as t:
                 for a in acceptors:
@@ -192,3 +195,10 @@ class EventletWorker(AsyncWorker):
                 raise
             for a in acceptors:
                 a.kill()
+        finally:
+            heartbeat.kill()
+
+    def _notify_forever(self):
+        while True:
+            self.notify()
+            eventlet.sleep(1.0)
